@@ -16,6 +16,49 @@ def run(run):
     leancheck.check(run, 'Den.lean', 'linearity / bilinearity of the denotation of coefficient maps')
     ks = keys()
     components.ast_functions(run, ks, run.tier)
+    surface(run)
+    from harness import opforms
+    opforms.component(run)
     run.trust('pyvc AST engine + z3 5.1 / cvc5 1.0.3')
     run.assume('operands of the foreign kind `opaque` are modelled as objects without special methods',
                'tuple dict keys are pairs (the only tuple keys the DSL creates)')
+
+
+ALLOWED_WITHOUT_CONTRACT = {'PEPit/expression.py::Expression.__hash__': 'identity hash of object (`return super().__hash__()`): no algebraic meaning'}
+
+
+def surface(run):
+    """every special method defined by Point / Expression / Constraint is under contract: Python dispatches operators (also `op=`) to the most specific special
+    method, so a NEW one would bypass every proved contract"""
+    import ast, os
+    REG = runner.load_contracts()
+    root = os.environ.get('PEPIT_REPO', '/repo')
+    for path, cls in (('PEPit/point.py', 'Point'), ('PEPit/expression.py', 'Expression'), ('PEPit/constraint.py', 'Constraint')):
+        tree = ast.parse(open(os.path.join(root, path)).read())
+        for node in tree.body:
+            if isinstance(node, ast.ClassDef) and node.name == cls:
+                for fn in node.body:
+                    if isinstance(fn, ast.FunctionDef) and fn.name.startswith('__') and fn.name.endswith('__'):
+                        key = '%s::%s.%s' % (path, cls, fn.name)
+                        ok = (key in REG.by_key and not REG.by_key[key].assumed) or key in ALLOWED_WITHOUT_CONTRACT
+                        oid = 'C06/operator-surface[%s.%s]' % (cls, fn.name)
+                        run.count(oid, ok, 'static inventory of special methods (ast)', 0.0, 'property', 'unsat' if ok else 'unknown')
+                        if not ok:
+                            run.undecide(oid, 'special method %s.%s (line %d) has no contract: operators dispatched to it are not covered by the proved contracts; '
+                                              'the bounded operator-forms harness decides whether it breaks the algebra' % (cls, fn.name, fn.lineno))
+
+
+def replay(rec, path):
+    if rec.get('kind') == 'op-forms':
+        from harness import opforms
+        mine = opforms.replay(rec)
+        print('operator form %r, clause %s, seed %s iteration %s' % (rec['form'], rec['clause'], rec['seed'], rec['iteration']))
+        for f in mine:
+            print('failed:', f[2])
+        if mine:
+            print('VIOLATION property=C06 replay=%s' % path)
+            return 1
+        print('not reproduced on the current tree')
+        return 0
+    print('unknown replay kind', rec.get('kind'))
+    return 3
